@@ -210,6 +210,29 @@ func (h *Hist) OpReport() {
 	h.W.Logf("report dev=%d slot=%d v=%d -> %s", d.ID, slot, v, why)
 }
 
+// OpReportBurst sends a run of reports for consecutive recent slots (dense
+// weeks make value-dependent defects visible).
+func (h *Hist) OpReportBurst() {
+	c := h.W.C
+	live := h.live()
+	if len(live) == 0 {
+		return
+	}
+	d := live[c.Int("dev", len(live))]
+	now := Slot()
+	k := 10 + c.Int("burst", 40)
+	for i := 0; i < k; i++ {
+		if uint32(i) > now {
+			break
+		}
+		slot := now - uint32(i)
+		b := SignedReport(d.Key, d.ID, slot, uint64(100+c.Int("bv", 900))).Encode()
+		h.Sent = append(h.Sent, b)
+		h.N.DoDatagram(b)
+	}
+	h.W.Probe("hist.burst")
+}
+
 // OpAuthorize submits an authorization of a seeded kind.
 func (h *Hist) OpAuthorize() AuthResult {
 	c := h.W.C
@@ -598,7 +621,12 @@ func (h *Hist) OpStats() {
 		h.W.Probe("hist.stats-archived")
 		if falseNeg {
 			h.W.Probe("hist.stats-archived-falseneg")
-			return
+			// "...identical forever, whatever requests (with any query
+			// parameters) follow": the plain request right after it.
+			ads, st = n.GetStats(uint32(i)*2016, false)
+			if st != 200 {
+				h.W.Fail(h.Rule+".week", "archived", "archived week %d not served after a false-negatives request: status %d", i, st)
+			}
 		}
 		if err := CompareWeek(&m.Weeks[i], ads, n.Key.Pub); err != nil {
 			h.W.Fail(h.Rule+".week", "archived", "%v", err)
